@@ -31,7 +31,19 @@ def judge_file(before: bytes | None, after: bytes | None, diffs: list[str]):
     try:
         bt, at = before.decode("utf-8"), after.decode("utf-8")
     except UnicodeDecodeError:
-        return out
+        # not UTF-8: a Python source is text in the encoding its coding cookie declares (PEP 263) - before and after the run
+        try:
+            import io
+            import tokenize
+
+            enc, _ = tokenize.detect_encoding(io.BytesIO(before).readline)
+            bt = before.decode(enc)
+        except (SyntaxError, UnicodeDecodeError, LookupError):
+            return out
+        try:
+            at = after.decode(enc)
+        except UnicodeDecodeError:
+            return out + [("diff-result-differs", f"the file was {enc} text before the run and is not decodable as {enc} afterwards")]
     ok, err = udiff.reproduces(diffs, bt, at)
     if not ok:
         kind, detail = err
